@@ -1,3 +1,27 @@
-import FV.Model.Strop
-namespace FV.Strop
-end FV.Strop
+import FV.Proofs.Strop.Basic
+import FV.Proofs.Strop.RowIv
+import FV.Proofs.Strop.Table
+import FV.Proofs.Strop.Span
+import FV.Proofs.Strop.Valid
+import FV.Proofs.Strop.Count
+import FV.Proofs.Strop.Branches
+import FV.Proofs.Strop.Sound
+import FV.Proofs.Strop.Extend
+import FV.Proofs.Strop.Complete
+import FV.Proofs.Strop.Area
+import FV.Proofs.Strop.Redundant
+/-
+  Helper lemmas for property C15 (single-trunk orthogon decomposition), split by topic:
+    Basic     loops, sums, `any`, run lengths
+    RowIv     `list.index`, `_row_interval`, interval intersection
+    Table     `_get_trunks_matrix`: fill phase and the two in-place pruning passes
+    Span      what a row span says about the rows
+    Valid     the cross of a trunk (`ValidTrunk`) vs the histograms
+    Count     the cell-count validity test
+    Branches  the run-length scan
+    Sound     the instances offered
+    Extend    a decomposition gives a valid trunk; growing a valid trunk to a maximal one
+    Complete  a maximal valid trunk is a potential trunk (rows, columns by transposition, corners)
+    Area      areas through coordinate lists (Mathlib big operators)
+    Redundant the cell-count test never rejects a potential trunk
+-/
